@@ -576,6 +576,35 @@ def observe(case, kwargs, env, rq):
                 viol.append('%s: value %.8g is not -c.x = %.8g' % (tag, float(res.value), val))
             if abs(float(res.value) - opt) > 1e-4 * max(1, abs(opt)):
                 viol.append('%s: value %.8g, exact optimum %.8g' % (tag, float(res.value), opt))
+    # split problems whose intervals repeat (same costs and bounds, e.g. a typical-day price profile) but differ in their rows: the result of
+    # every interval must be a feasible optimal point of THAT interval's problem
+    for k, (caps, reps) in enumerate((([100., 50., 20.], 3), ([5., 5., 1.], 3))):
+        mk = lambda cap: eao.optimization.OptimProblem(
+            c=np.array([-3., -1., 2.]), l=np.zeros(3), u=np.array([60., 60., 60.]), A=sp.lil_matrix(np.array([[1., 1., 0.], [0., 1., -1.]])),
+            b=np.array([cap, 0.]), cType='US',
+            mapping=pd.DataFrame({'asset': ['a'] * 3, 'node': ['n'] * 3, 'type': ['d'] * 3, 'var_name': ['v'] * 3, 'time_step': [0, 1, 2]}, index=range(3)))
+        ops = [mk(c_) for c_ in caps]
+        gm = pd.concat([o.mapping.set_index(o.mapping.index + 3 * i) for i, o in enumerate(ops)])
+        sop = eao.optimization.SplitOptimProblem(ops, gm)
+        try:
+            res = sop.optimize()
+        except Exception as e:  # noqa: BLE001
+            viol.append('split instance %d: raises %s: %s' % (k, type(e).__name__, str(e)[:100]))
+            continue
+        if isinstance(res, str):
+            viol.append('split instance %d: reports failure but every interval is feasible' % k)
+            continue
+        x = np.asarray(res.x, dtype=float)
+        tot = 0.0
+        for i, o in enumerate(ops):
+            xi = [float(v) for v in x[3 * i:3 * i + 3]]
+            r = scen.feasibility_residual(obs.to_jsonable(obs.problem_obs(o)), xi, tol=1e-5)
+            if r > 1e-5:
+                viol.append('split instance %d interval %d: returned x violates the interval problem by %.3g' % (k, i, r))
+            opt = exact_optimum(dict(n=3, m=2, c=[-3, -1, 2], l=[0, 0, 0], u=[60, 60, 60], A=[[1, 1, 0], [0, 1, -1]], b=[caps[i], 0], ct='US', bools=[]))
+            tot += opt
+        if abs(float(res.value) - tot) > 1e-4 * max(1, abs(tot)):
+            viol.append('split instance %d: value %.8g, sum of the exact interval optima %.8g' % (k, float(res.value), tot))
     return dict(contract_violations=viol, instances=n_inst)
 
 
